@@ -373,8 +373,10 @@ def parse_tlc(out):
         res["violated"] = "deadlock"
     elif "is violated" in out and "Error:" in out:
         res["violated"] = "property"
-    if re.search(r"Postcondition|POSTCONDITION", out) and "violated" in out.lower() and not res["ok"]:
+    if re.search(r"Error: Postcondition \S+ .*is false", out) and not res["ok"]:
         res["violated"] = res["violated"] or "postcondition"
+    m = re.search(r'"HIGHWATER", (\d+)', out)
+    res["highwater"] = int(m.group(1)) if m else None
     return res
 
 
